@@ -39,7 +39,9 @@ class Store:
             s = spec_of(lex)
             if s in pre:
                 continue
-            if lex.get('extends') and dep_spec(lex['extends']) not in pre:
+            # the base must be installed by the time the extension is reached: before the call, or as an
+            # earlier lexicon of the same resource
+            if lex.get('extends') and dep_spec(lex['extends']) not in pre | set(added):
                 continue
             self._add(lex)
             added.append(s)
